@@ -75,6 +75,28 @@ def fields(manifest):
     if m:
         j = match_close(region, m.end() - 1)
         region = region[:m.start()] + region[j + 1:]
+    # other small member functions defined here (helpers the loop body may call): scalar parameters and result only;
+    # they become C functions placed after the memory accessors (names["__helpers__"])
+    helpers = []
+    while True:
+        mh = re.search(r"(?:static |inline )*([\w:]+) (\w+)\(([^()]*)\)\s*(?:const\s*)?\{", region)
+        if not mh:
+            break
+        hb = match_close(region, mh.end() - 1)
+        ret, hname, params, body = mh.group(1), mh.group(2), mh.group(3), region[mh.end() - 1:hb + 1]
+        region = region[:mh.start()] + region[hb + 1:]
+        if ret not in SCALAR_TYPES:
+            raise ExtractionError("hexsim::Processor::%s: return type %s not understood" % (hname, ret))
+        ps = []
+        for prm in [x.strip() for x in params.split(",") if x.strip()]:
+            mp = re.fullmatch(r"(?:const )?([\w:]+) (\w+)", prm)
+            if not mp or mp.group(1) not in SCALAR_TYPES:
+                raise ExtractionError("hexsim::Processor::%s: parameter %r not understood" % (hname, prm))
+            ps.append("%s %s" % (SCALAR_TYPES[mp.group(1)], mp.group(2)))
+        c = {}
+        body = rewrite_memory(rewrite(body, ENUM_RULES, "Processor::" + hname, manifest), c)
+        leftover_check(body, hname)
+        helpers.append("static %s %s(%s) %s\n" % (SCALAR_TYPES[ret], hname, ", ".join(ps) or "void", body))
     decls = [d.strip() for d in region.split(";") if d.strip()]
     out = []
     names = {}
@@ -113,6 +135,9 @@ def fields(manifest):
             raise ExtractionError("hexsim::Processor: member %s not found" % need)
     manifest.append({"unit": "Processor fields", "fields": names, "default_member_initialisers": defaults})
     names["__defaults__"] = defaults
+    names["__helpers__"] = "".join(helpers)
+    if helpers:
+        manifest.append({"unit": "Processor helper member functions", "functions": [re.search(r"static \w+ (\w+)\(", h).group(1) for h in helpers]})
     return "\n".join(out) + "\n", names
 
 
@@ -235,11 +260,16 @@ def run_parts(manifest):
     """(loop condition text, loop body as step(), value returned after the loop)"""
     src = Source("hexsim.hpp", manifest)
     run, i0, _ = src.block_after(r"int run\(\) \{", "Processor::run")
-    m = re.search(r"while \((running &&\s*\(maxCycles > 0 \? cycles <= maxCycles : true\))\) \{", run)
-    if not m:
-        raise ExtractionError("run(): loop header `while (running && (maxCycles > 0 ? cycles <= maxCycles : true)) {` not found")
-    cond = " ".join(m.group(1).split())
-    lb = m.end() - 1
+    # the loop: `while (<condition>) {` -- the condition is taken as it is (run_loop.contract states what it must mean)
+    m = re.search(r"\bwhile \(", run)
+    if not m or len(re.findall(r"\bwhile \(", run)) != 1 or re.search(r"\bfor \(|\bdo \{", run):
+        raise ExtractionError("run(): expected exactly one loop, `while (<condition>) {`")
+    cp = match_close(run, m.end() - 1, "(", ")")
+    cond = " ".join(run[m.end():cp].split())
+    leftover_check(cond, "run() loop condition")
+    if not re.match(r"\s*\{", run[cp + 1:]):
+        raise ExtractionError("run(): loop body is not a block")
+    lb = run.index("{", cp)
     rb = match_close(run, lb)
     body = run[lb:rb + 1]
     tail = strip_comments(run[rb + 1:]).strip().rstrip("}").strip()
@@ -263,8 +293,8 @@ def run_parts(manifest):
     ], "Processor::run loop body", manifest)
     c = {}
     body = rewrite_memory(body, c)
-    if c.get("RD", 0) < 5 or c.get("WR", 0) < 2:
-        raise ExtractionError("run() body: expected >=5 memory reads and >=2 stores, found %s" % c)
+    if c.get("RD", 0) < 3 or c.get("WR", 0) < 2:   # sanity only (LDAM/LDBM/LDAI/LDBI reads, STAM/STAI stores; the fetch may live in a helper)
+        raise ExtractionError("run() body: expected >=3 memory reads and >=2 stores, found %s" % c)
     manifest.append({"unit": "Processor::run loop body", "memory_accesses": c, "loop_condition": cond, "returns": mt.group(1),
                      "loop_carried_locals": [n for _, n, _ in run_locals]})
     leftover_check(body, "step")
@@ -340,11 +370,16 @@ def rewrite_format_streams(t, counts):
             ndir = len(re.findall(r"%(?!%)[-#0 +]*\d*(?:\.\d+)?[a-zA-Z]", mlit.group(1).replace("%%", "")))
             arity_ok = ndir == len(args)
             counts.setdefault("fmt_arity", []).append((ndir, len(args)))
+        # a precision on a string directive (`%-12.12s`) cuts the rendered column to that many characters: the column then no
+        # longer shows the argument (the arguments themselves are what the ghost log records)
+        trunc = bool(mlit and re.search(r"%(?!%)[-#0 +]*\d*\.\d+s", mlit.group(1).replace("%%", "")))
+        if trunc:
+            counts["fmt_truncating"] = counts.get("fmt_truncating", 0) + 1
         ghost = []
         for a in args:
             ms = re.fullmatch(r"SYMINFO\((\w+), (\w+)\)", a)
             ghost += [ms.group(1), ms.group(2)] if ms else [a]
-        res.append("{ EV_FMT(%s, %d); %s%s }" % (fmt, len(ghost), " ".join("EV_ARG(%s);" % a for a in ghost),
+        res.append("{ EV_FMT(%s, %d); %s%s%s }" % (fmt, len(ghost), "EV_TRUNCATES(); " if trunc else "", " ".join("EV_ARG(%s);" % a for a in ghost),
                                                 "" if arity_ok else " { VERIF_THROW(0); return; } /* boost::format: argument count differs from the directive count: throws */"))
         counts["fmt"] = counts.get("fmt", 0) + 1
         i = e + 1
